@@ -508,8 +508,33 @@ fn case_adapter(kv: &Kv) -> String {
 
 fn case_group(kv: &Kv) -> String {
     let n: usize = kv["n"].parse().unwrap();
-    let ops = calls_to_ops(&parse_calls(kv["ops"]));
     let via = kv.get("via").copied().unwrap_or("fn");
+    if via == "textdiff" {
+        // TextDiff::grouped_ops and the hunks of its unified diff, on the diff's own ops
+        let alg = parse_alg(kv["alg"]);
+        let old: Vec<String> = parse_list(kv["old"]).iter().map(|x| x.to_string()).collect();
+        let new: Vec<String> = parse_list(kv["new"]).iter().map(|x| x.to_string()).collect();
+        let oref: Vec<&str> = old.iter().map(|x| x.as_str()).collect();
+        let nref: Vec<&str> = new.iter().map(|x| x.as_str()).collect();
+        let td = similar::TextDiff::configure().algorithm(alg).diff_slices(&oref, &nref);
+        let f = |gs: Vec<Vec<similar::DiffOp>>| {
+            if gs.is_empty() {
+                "-".to_string()
+            } else {
+                gs.iter().map(|g| fmt_calls(&ops_to_calls(g))).collect::<Vec<_>>().join("|")
+            }
+        };
+        let mut ud = td.unified_diff();
+        ud.context_radius(n);
+        let hunks: Vec<Vec<similar::DiffOp>> = ud.iter_hunks().map(|h| h.ops().to_vec()).collect();
+        return format!(
+            "ops={} groups={} hunks={}",
+            fmt_calls(&ops_to_calls(td.ops())),
+            f(td.grouped_ops(n)),
+            f(hunks)
+        );
+    }
+    let ops = calls_to_ops(&parse_calls(kv["ops"]));
     let groups = match via {
         "fn" => similar::group_diff_ops(ops, n),
         "capture" => {
@@ -582,6 +607,15 @@ fn case_iter(kv: &Kv) -> String {
     for op in &ops {
         op.apply_to_hook(&mut cap).unwrap();
     }
+    // the same through a borrowed hook (D = &mut Capture: the forwarding impl of DiffHook for &mut D)
+    let mut cap2 = similar::algorithms::Capture::new();
+    {
+        let mut r = &mut cap2;
+        for op in &ops {
+            op.apply_to_hook(&mut r).unwrap();
+        }
+    }
+    let ref_same = cap.ops() == cap2.ops();
     // whole-list iteration (AllChangesIter) over the same ops, reached through the public
     // UnifiedDiffHunk::new(ops, diff, ..).iter_changes() on a TextDiff of the items as strings
     let olds: Vec<String> = old.iter().map(|x| x.to_string()).collect();
@@ -611,11 +645,12 @@ fn case_iter(kv: &Kv) -> String {
         }
     };
     format!(
-        "changes={} slices={} recap={} all_same={}",
+        "changes={} slices={} recap={} all_same={} ref_same={}",
         j(ch),
         j(sl),
         fmt_calls(&ops_to_calls(cap.ops())),
-        if all_same { 1 } else { 0 }
+        if all_same { 1 } else { 0 },
+        if ref_same { 1 } else { 0 }
     )
 }
 
